@@ -35,7 +35,7 @@ META = dict(
          "countdown rule, frozen while asleep. Every valid array over <= 5 trees is replayed into mj_wakeIsland, "
          "mj_sleepCycle, mj_updateSleep; every transition of the 2-tree (real MINAWAKE) and 3-tree (engine_sleep.c "
          "compiled with MINAWAKE=1) graphs and simulated 5-tree behaviours are replayed phase by phase into mj_wake, "
-         "mj_wakeCollision, mj_wakeEquality, mj_sleep. Real simulations (13 scenario families, seeded perturbations "
+         "mj_wakeCollision, mj_wakeEquality, mj_sleep. Real simulations (14 scenario families, seeded perturbations "
          "of qpos/qvel/xfrc/qfrc/mocap/eq_active) are logged after every mj_step and accepted by TLC only if "
          "SleepTrace.tla explains each step, sleeping trees kept their qpos bits and zero qvel, island ids agree and "
          "a sleep-disabled twin agrees bitwise whenever no tree is asleep.",
@@ -139,12 +139,13 @@ def part_api(ctx, exe):
 # part 2: the phases of one step on the synthetic model (Sleep.tla)
 # =====================================================================================================================
 CFG_CONST = {      # constants of the configurations, as the harness needs them (kept in step with tla/Sleep_*.cfg)
-    "Sleep_MC": dict(nt=3, eqs=[(0, 1), (1, 2)], never=[], disable=0, m1=True),
-    "Sleep_Graph": dict(nt=3, eqs=[(0, 1), (1, 2)], never=[], disable=0, m1=True),
-    "Sleep_NoIsl": dict(nt=3, eqs=[(0, 1), (1, -1)], never=[], disable=DSBL_ISLAND, m1=True),
-    "Sleep_Real2": dict(nt=2, eqs=[(0, 1)], never=[], disable=0, m1=False),
-    "Sleep_Sim": dict(nt=5, eqs=[(1, 2), (0, 1), (3, -2), (2, -1), (4, -4)], never=[3], disable=0, m1=False),
-    "Sleep_SimM1": dict(nt=5, eqs=[(1, 2), (0, 1), (3, -2), (2, -1), (4, -4)], never=[3], disable=0, m1=True),
+    # equalities: (x, y, kind) with kind 0 weld/bodies, 1 connect/bodies, 2 weld/sites, 3 connect/sites
+    "Sleep_MC": dict(nt=3, eqs=[(0, 1, 2), (1, 2, 1)], never=[], disable=0, m1=True),
+    "Sleep_Graph": dict(nt=3, eqs=[(0, 1, 2), (1, 2, 1)], never=[], disable=0, m1=True),
+    "Sleep_NoIsl": dict(nt=3, eqs=[(0, 1, 3), (1, -1, 0)], never=[], disable=DSBL_ISLAND, m1=True),
+    "Sleep_Real2": dict(nt=2, eqs=[(0, 1, 3)], never=[], disable=0, m1=False),
+    "Sleep_Sim": dict(nt=5, eqs=[(1, 2, 2), (0, 1, 1), (3, -2, 3), (2, -1, 2), (4, -4, 0)], never=[3], disable=0, m1=False),
+    "Sleep_SimM1": dict(nt=5, eqs=[(1, 2, 2), (0, 1, 1), (3, -2, 3), (2, -1, 2), (4, -4, 0)], never=[3], disable=0, m1=True),
 }
 
 
@@ -165,6 +166,8 @@ def check_cfg_consts(name):
             raise Machinery("Sleep.tla: definition %s not found" % m.group(2))
         return d.group(1).strip()
     def val(text):
+        for nm, code in (("WeldBody", "0"), ("ConnectBody", "1"), ("WeldSite", "2"), ("ConnectSite", "3")):
+            text = text.replace(nm, code)
         text = text.replace("Carried2", "-4").replace("Carried", "-3").replace("Mocap", "-2").replace("World", "-1")
         return tlc.parse_value(text)
     if int(const("NT")) != c["nt"] or (const("MINAWAKE") == "1") != c["m1"]:
@@ -242,7 +245,7 @@ def replay_states(ctx, exes, name, evs, label):
     """independent replay of recorded phases: set the array, run the phase, compare"""
     c = CFG_CONST[name]
     exe = exes["m1" if c["m1"] else "real"]
-    cmds = ["wb_new %d %s %s %d" % (c["nt"], csv(c["never"]), csv("%d:%d" % e for e in c["eqs"]), c["disable"])]
+    cmds = ["wb_new %d %s %s %d" % (c["nt"], csv(c["never"]), csv("%d:%d:%d" % e for e in c["eqs"]), c["disable"])]
     exps = [("new", None, "ok")]
     for k, ev in enumerate(evs):
         cmd, want = phase_cmd(ev, k, c)
@@ -250,6 +253,18 @@ def replay_states(ctx, exes, name, evs, label):
         exps.append(("set", None, "ok"))
         cmds.append(cmd)
         exps.append((ev["ph"], ev, want))
+    if name in ("Sleep_MC", "Sleep_Real2"):
+        # vacuity: a SITE-defined equality across two trees, active, one tree asleep and the other awake, wakes the sleeper
+        ok = False
+        for ev in evs:
+            if ev["ph"] == "weq" and ev["ret"] > 0:
+                for k2, e in enumerate(ev["eqs"]):
+                    x, y, kd = e
+                    if ev["act"][k2] and kd in (2, 3) and 0 <= x < c["nt"] and 0 <= y < c["nt"] \
+                            and (ev["before"][x] >= 0) != (ev["before"][y] >= 0):
+                        ok = True
+        if not ok:
+            raise Machinery("%s: vacuity: no wake-up through a site-defined equality between a sleeping and an awake tree" % name)
     r = drv.run_script(exe, cmds, timeout=1500)
     nbad = 0
     for i, (kind, ev, want) in enumerate(exps):
@@ -280,7 +295,7 @@ def replay_behaviours(ctx, exes, name, behs, label):
     the array is set once, afterwards only the phase functions touch it"""
     c = CFG_CONST[name]
     exe = exes["m1" if c["m1"] else "real"]
-    head = "wb_new %d %s %s %d" % (c["nt"], csv(c["never"]), csv("%d:%d" % e for e in c["eqs"]), c["disable"])
+    head = "wb_new %d %s %s %d" % (c["nt"], csv(c["never"]), csv("%d:%d:%d" % e for e in c["eqs"]), c["disable"])
     cmds, exps, index = [], [], []
     for bi, beh in enumerate(behs):
         start = len(cmds)
@@ -466,18 +481,40 @@ def scenarios(seed, quick):
         s.free("s", (0.8, 0, 0.101), SPH)
         random_perturbations(s, rng, n1, 80, 60)
         out.append((s, n1))
-        # 3. welded pair (equality toggled at run time) and a bystander
+        # 3. equalities of both kinds and both definitions: weld between SITES of a and b, switched on at run time
+        #    (while a sleeps and b has just been pushed awake) and off again; connect between the BODIES c and d, active
+        #    from the start and switched off / on later
         s = Scn("weld")
         s.free("a", (0, 0, 0.101), BOX)
         s.free("b", (0.5, 0, 0.101), BOX)
         s.free("c", (0, 0.7, 0.101), SPH)
         s.free("d", (0.9, 0.9, 0.181), CAP)
-        s.lines.append("equality name=w type=1 objtype=1 name1=a name2=b data=0,0,0,0,0,0,0,0,0,0,1 active=%d" % (rep % 2))
-        s.neq = 1
+        s.lines.append("site body=a name=sa pos=0,0,0.05")
+        s.lines.append("site body=b name=sb pos=0,0,0.05")
+        s.lines.append("equality name=w type=%d objtype=6 name1=sa name2=sb active=%d" % (1 if rep % 2 == 0 else 0, 0))
+        s.lines.append("equality name=cd type=%d objtype=1 name1=c name2=d active=1 data=0,0,0,0,0,0,0,0,0,0,1" % (0 if rep % 2 == 0 else 1))
+        s.neq = 2
         for k, st in enumerate(range(70, n1 - 10, 75)):
-            s.at(st, "set 0 eq_active 0 %d" % ((k + 1 + rep) % 2))
-        random_perturbations(s, rng, n1, 100, 90)
+            if k % 2 == 0:
+                s.p_qvel(st - 1, 1, k=0, val=0.3)            # b is awake when the equality comes on, a still asleep
+            s.at(st, "set 0 eq_active 0 %d" % ((k + 1) % 2))
+            s.at(st + 30, "set 0 eq_active 1 %d" % (k % 2))
         out.append((s, n1))
+        # 3b. islands disabled, no gravity, no contacts (so trees can sleep at all): a connect between SITES of a and b is
+        #     switched on while a sleeps and b drifts
+        s = Scn("noisland-eq", opt="gravity=0,0,0 disableflags=%d" % DSBL_ISLAND)
+        s.noisl = 1
+        for i, g in enumerate((BOX, SPH, BOX, CAP)):
+            s.free("f%d" % i, (i * 0.8, 0, 1.0), g)
+        s.lines.append("site body=f0 name=s0 pos=0.05,0,0")
+        s.lines.append("site body=f1 name=s1 pos=-0.05,0,0")
+        s.lines.append("equality name=c01 type=%d objtype=6 name1=s0 name2=s1 active=0" % (0 if rep % 2 == 0 else 1))
+        s.neq = 1
+        s.p_qvel(40, 1, k=1, val=0.2)
+        s.at(41, "set 0 eq_active 0 1")
+        s.at(90, "set 0 eq_active 0 0")
+        s.p_qpos(120, 2, k=2, delta=0.02)
+        out.append((s, 150))
         # 4. mocap body pushed onto a sleeping box and away again, plus an equality to the mocap body
         s = Scn("mocap")
         s.free("a", (0, 0, 0.101), BOX)
@@ -710,6 +747,10 @@ def validate(ctx, traces_by_nt, tag, record=True, timeout=1500):
     return verdict
 
 
+def runs_have_errors(runs):
+    return any(err is not None for (_s, _h, _st, err) in runs)
+
+
 def cycle_of(ta, t):
     out, cur = set(), t
     while cur not in out and 0 <= cur < len(ta) and ta[cur] >= 0:
@@ -746,6 +787,17 @@ def part_traces(ctx, exe):
         keyed[k] = (s, hdr, steps)
     if not keyed:
         return 0, 0
+    # vacuity: a site-defined equality across two trees switched on while exactly one of them sleeps (islands on and off)
+    seen = {0: 0, 1: 0}
+    for k, (s, hdr, steps) in keyed.items():
+        for j in range(1, len(steps)):
+            for e0, e1 in zip(steps[j - 1]["eqs"], steps[j]["eqs"]):
+                x, y, act, kd = e1
+                if kd in (2, 3) and act == 1 and e0[2] == 0 and x >= 0 and y >= 0 and x != y \
+                        and (steps[j - 1]["ta"][x] >= 0) != (steps[j - 1]["ta"][y] >= 0):
+                    seen[s.noisl] += 1
+    if not runs_have_errors(runs) and (seen[0] == 0 or seen[1] == 0):
+        raise Machinery("vacuity: no site-defined equality was switched on between a sleeping and an awake tree (%r)" % seen)
     # ---- negative controls: corrupted copies of a recorded trace (each cut right after the corrupted step)
     ctl = []
 
